@@ -38,7 +38,29 @@ Lemma login_prefix_is_pass :
   exists V, login_pass_prefix = V ++ [SP] /\ lower V = VERB_PASS.
 Proof. exists (removelast login_pass_prefix). split; vm_compute; reflexivity. Qed.
 
+(* Client.login, translated as a program (first command, loop mask, censor_after as the loop-carried
+   variable with its per-iteration reset, one branch per reply code): every branch that appends
+   the password censors from the end of its own literal prefix, in that branch *)
+Lemma login_program_ok : login_program_translated && login_prog_ok login_program = true.
+Proof. vm_compute. reflexivity. Qed.
+
+(* ... and the program's password branch is the one the single-command facts above describe *)
+Lemma login_program_pass_branch :
+  map (fun b => (lb_prefix b, lb_censor b))
+      (filter (fun b => match lb_arg b with ArgPassword => true | _ => false end) (lp_branches login_program))
+  = [(login_pass_prefix, Some login_pass_censor_after)].
+Proof. vm_compute. reflexivity. Qed.
+
 (* ---- instantiated theorems *)
+Theorem inst_client_login_hides_password user p1 p2 account lines :
+  length p1 = length p2 ->
+  client_login_run login_program user p1 account lines
+  = client_login_run login_program user p2 account lines.
+Proof.
+  pose proof login_program_ok as H. apply andb_true_iff in H. destruct H as [_ H].
+  exact (client_login_run_hides_password login_program user p1 p2 account lines H).
+Qed.
+
 Theorem inst_server_log_hides_password V p1 p2 w :
   lower V = VERB_PASS -> allspace w ->
   length (rstrip p1) = length (rstrip p2) ->
